@@ -47,7 +47,8 @@ RetRootOps == Structural \cup {"punctuation_delete", "ptb_delete_traces", "inser
                                "substitute_terminals"}
 \* expected exceptions (the property says "rejected")
 MustRaise(o, A) ==
-  o.name = "binarize" /\ \E x \in CNodes(A) : Cardinality(Kids(A, x)) > 2 /\ \A k \in Kids(A, x) : k.a.head = "~"
+  \/ o.name = "binarize" /\ \E x \in CNodes(A) : Cardinality(Kids(A, x)) > 2 /\ \A k \in Kids(A, x) : k.a.head = "~"
+  \/ o.name = "mark_heads_by_rules" /\ o.preset \notin {"negra", "ptb"}    \* unknown preset / no rule source
 
 StepErrs(e, A, m2) ==
   LET o == OpOf(e) IN
@@ -57,7 +58,7 @@ StepErrs(e, A, m2) ==
   ELSE IF o.name = "filter_by_length" THEN
      F("C11.filter", (e.res = "none") <=> FilterDrops(A, o)) \cup
      (IF e.res = "ok" THEN F("C11.filter_unchanged", e.post.nodes = cur.nodes /\ WFretroot(e.post)) ELSE {})
-  ELSE IF MustRaise(o, A) THEN {"C14.bin.rejects_headless"}
+  ELSE IF MustRaise(o, A) THEN {IF o.name = "binarize" THEN "C14.bin.rejects_headless" ELSE "C15.rules.rejects"}
   ELSE LET wf == WFClauses(e.post) IN
     {(IF o.name \in Structural THEN "C04." ELSE "C11.") \o c : c \in wf} \cup
     \* an ill-formed result also breaks the property that describes this operation
